@@ -217,6 +217,14 @@ def rules_pairs(run):
         if good:
             tv = lp.target.id
             ats = guard_atoms(x, stop=lp)
+
+            def res(txt):
+                if txt.isidentifier():
+                    o = q.local_origin(F, ast.Name(id=txt, ctx=ast.Load()))
+                    if len(o) == 1:
+                        return q.unparse(o[0])
+                return txt
+            ats = [(a[0], a[1], res(a[2])) if a[0] == 'not in' else a for a in ats]
             tgt = [a for a in ats if a == ('truthy', tv + '.target', '') or a == ('is not', tv + '.target', 'None') or a == ('falsy', tv + '.internal', '')]
             outside = [a for a in ats if a[0] == 'not in' and a[1] == tv + '.target' and 'descendants_for' in a[2]]
             run.check(len(tgt) == 1 and len(outside) == 1 and len(ats) == 2, r, fi.short, 'conflict iff external target outside the LCA child subtree',
@@ -224,8 +232,10 @@ def rules_pairs(run):
             if outside:
                 # [child] + descendants_for(child), child obtained by walking up from the source until the LCA
                 expr = outside[0][2]
+                def iter_origin(w):
+                    return [o for o in q.local_origin(F, w.iter)]
                 walks = [w for w in ast.walk(lp) if isinstance(w, ast.For) and any('Statechart.ancestors_for' in q.callee_shorts(run, c)[0]
-                                                                                    for c in ast.walk(w.iter) if isinstance(c, ast.Call))]
+                                                                                    for o in iter_origin(w) for c in ast.walk(o) if isinstance(c, ast.Call))]
                 good2 = len(walks) == 1
                 if good2:
                     w = walks[0]
@@ -235,7 +245,7 @@ def rules_pairs(run):
                     asg = [s for s in w.body if isinstance(s, ast.Assign)]
                     good2 = good2 and len(asg) == 1 and isinstance(asg[0].targets[0], ast.Name) and expr.replace(' ', '') == \
                         ('[%s]+self._statechart.descendants_for(%s)' % (asg[0].targets[0].id, asg[0].targets[0].id))
-                    good2 = good2 and tv + '.source' in q.unparse(w.iter)
+                    good2 = good2 and all(tv + '.source' in q.unparse(o) for o in iter_origin(w))
                 run.check(good2, r, fi.short, 'subtree = LCA child (walk up from the source until the LCA) and its descendants',
                           'the region of a transition must be the child of the LCA on its source side', x)
     return same_src_guarded, lca_var, (t1, t2), L
